@@ -333,6 +333,40 @@ theorem C11_index_absent_notfound (sch : Schema) (db : Db) (n : Nat) (kw : Kw) (
     | cons r t => exact absurd ((h2 r).mp List.mem_cons_self).2 (habs r ((h2 r).mp List.mem_cons_self).1)
   rw [h1, this]; rfl
 
+/-! ## batched iteration (inheritable classes) -/
+
+/-- `InheritableIteration.next`: the cursor is drained by `fetchmany()` in batches of `size` rows
+    (`defaultArraySize`); each batch is handed out row by row before the next one is fetched -/
+def fetchBatches {α} (size : Nat) (rows : List α) : List (List α) :=
+  if _h : rows = [] ∨ size = 0 then [] else
+    rows.take size :: fetchBatches size (rows.drop size)
+termination_by rows.length
+decreasing_by
+  have h1 : rows ≠ [] := fun e => _h (Or.inl e)
+  have h2 : size ≠ 0 := fun e => _h (Or.inr e)
+  have : 0 < rows.length := List.length_pos_iff.mpr h1
+  simp only [List.length_drop]; omega
+
+/-- batched iteration over an inheritable class hands out every fetched row, in order, for EVERY batch size ≥ 1 -/
+theorem C11_batched_iteration_complete {α} (size : Nat) (hs : 0 < size) (rows : List α) :
+    (fetchBatches size rows).flatten = rows := by
+  induction h : rows.length using Nat.strongRecOn generalizing rows with
+  | _ n ih =>
+    rw [fetchBatches]
+    by_cases he : rows = []
+    · simp [he]
+    · have hc : ¬ (rows = [] ∨ size = 0) := by
+        intro x; rcases x with x | x
+        · exact he x
+        · omega
+      rw [dif_neg hc, List.flatten_cons]
+      have hpos : 0 < rows.length := List.length_pos_iff.mpr he
+      have hlt : (rows.drop size).length < n := by simp only [List.length_drop]; omega
+      rw [ih _ hlt (rows.drop size) rfl, List.take_append_drop]
+
+
+example : (fetchBatches 2 [1, 2, 3, 4, 5]).flatten = [1, 2, 3, 4, 5] := C11_batched_iteration_complete 2 (by decide) _
+
 /-! ## several connections -/
 
 /-- **connection isolation.**  A select / count / aggregate issued with `connection=c` (or through the
